@@ -2043,6 +2043,8 @@ void SoPlexBase<R>::_solveRealForRationalStable(
 
       if(intParam(SoPlexBase<R>::OBJSENSE) == SoPlexBase<R>::OBJSENSE_MINIMIZE)
          sol._objVal *= -1;
+
+      sol._objVal += _rationalLP->objOffset();
    }
 
    // set objective coefficients for all rows to zero
@@ -2377,6 +2379,8 @@ void SoPlexBase<R>::_performOptIRStable(
 
       if(intParam(SoPlexBase<R>::OBJSENSE) == SoPlexBase<R>::OBJSENSE_MINIMIZE)
          sol._objVal *= -1;
+
+      sol._objVal += _rationalLP->objOffset();
    }
 
    // set objective coefficients for all rows to zero
@@ -2982,6 +2986,8 @@ void SoPlexBase<R>::_solveRealForRationalBoostedStable(
 
          if(intParam(SoPlexBase<R>::OBJSENSE) == SoPlexBase<R>::OBJSENSE_MINIMIZE)
             sol._objVal *= -1;
+
+         sol._objVal += _rationalLP->objOffset();
       }
 
       // set objective coefficients for all rows to zero
@@ -3352,6 +3358,8 @@ void SoPlexBase<R>::_performOptIRStableBoosted(
 
          if(intParam(SoPlexBase<R>::OBJSENSE) == SoPlexBase<R>::OBJSENSE_MINIMIZE)
             sol._objVal *= -1;
+
+         sol._objVal += _rationalLP->objOffset();
       }
 
       // set objective coefficients for all rows to zero
